@@ -70,6 +70,29 @@ Fixpoint sq_remove (q : sq_queue) (s m : Z) : option (sq_entry * sq_queue) :=
            end
   end.
 
+(* coap_cancel_all_messages (all nodes of a session with a given token) and
+   coap_cancel_session_messages (all nodes of a session): every node that satisfies p is unlinked
+   and its time is added to its successor (/repo f424a16; before that commit it was not, see
+   sq_cancel_nobump).  carry = the time of the unlinked nodes directly in front. *)
+Fixpoint sq_cancel_go (p : sq_node -> bool) (carry : Z) (q : sq_queue) : list sq_node * sq_queue :=
+  match q with
+  | [] => ([], [])
+  | (t, n) :: rest =>
+      if p n then let (rm, q') := sq_cancel_go p (carry + t) rest in (n :: rm, q')
+      else let (rm, q') := sq_cancel_go p 0 rest in (rm, (t + carry, n) :: q')
+  end.
+Definition sq_cancel (p : sq_node -> bool) (q : sq_queue) : list sq_node * sq_queue :=
+  sq_cancel_go p 0 q.
+
+(* the two functions as they were before f424a16: plain unlinking *)
+Fixpoint sq_cancel_nobump (p : sq_node -> bool) (q : sq_queue) : list sq_node * sq_queue :=
+  match q with
+  | [] => ([], [])
+  | (t, n) :: rest =>
+      let (rm, q') := sq_cancel_nobump p rest in
+      if p n then (n :: rm, q') else (rm, (t, n) :: q')
+  end.
+
 (* coap_adjust_basetime(ctx, now): returns (number of expired nodes, new basetime, new queue).
    Transcribed as written, including the assignment q->t = delta - t to the first node that has
    not expired (see sq_adjust_shifts_deadline in SendQueueProofs.v). *)
